@@ -44,6 +44,42 @@ Theorem C14_per_producer_order :
 Proof. exact per_producer_order. Qed.
 Print Assumptions C14_per_producer_order.
 
+(* LINEARISABILITY, for any monitor body (in particular put/take/drain/size, the bounded queue with
+   empty/full/size/capacity, the latch): the completed critical sections, in the order in which they
+   held the mutex, are a SEQUENTIAL execution of the calls from the initial state to the current
+   shared state - every value, list, size or flag any call has returned, under whatever concurrent
+   put/take traffic, is what that call returns in that sequential execution. *)
+Theorem C14_linearisable : forall (S op res : Type) (body : op -> S -> outcome S res) s0 progs (s : sys S op res),
+  reach body (init_sys s0 progs) s -> seq_exec body s0 (hist s) (shared s).
+Proof. exact linearisable. Qed.
+Print Assumptions C14_linearisable.
+
+(* ... spelled out for the two queues: for EVERY completed call, with [before] = the queue it found
+   (= the puts before it minus the elements handed out before it, in FIFO order): take() returned its
+   head, drain() returned all of it, size()/empty()/full()/capacity() reported it exactly, a bounded
+   put() found room *)
+Theorem C14_observers :
+  (forall progs s h1 t o r h2, reach bq_body (init_sys [] progs) s -> hist s = h1 ++ (t, o, r) :: h2 ->
+     bq_puts h1 = rets h1 ++ bq_before h1 /\
+     match o with
+     | BPut _ => r = RUnit
+     | BTake => exists x q', bq_before h1 = x :: q' /\ r = RVal x
+     | BDrain => r = RList (bq_before h1)
+     | BSize => r = RSize (length (bq_before h1))
+     end) /\
+  (forall cap progs s h1 t o r h2, reach (bbq_body cap) (init_sys [] progs) s -> hist s = h1 ++ (t, o, r) :: h2 ->
+     bbq_puts h1 = rets h1 ++ bbq_before h1 /\ length (bbq_before h1) <= cap /\
+     match o with
+     | QPut _ => r = RUnit /\ length (bbq_before h1) < cap
+     | QTake => exists x q', bbq_before h1 = x :: q' /\ r = RVal x
+     | QSize => r = RSize (length (bbq_before h1))
+     | QEmpty => r = RBool (Nat.eqb (length (bbq_before h1)) 0)
+     | QFull => r = RBool (Nat.eqb (length (bbq_before h1)) cap)
+     | QCapacity => r = RSize cap
+     end).
+Proof. split; [exact bq_observers|exact bbq_observers]. Qed.
+Print Assumptions C14_observers.
+
 (* in EVERY reachable state: handed out ++ still queued = put (nothing lost, nothing invented,
    nothing duplicated) *)
 Theorem C14_nothing_lost :
@@ -189,5 +225,33 @@ Proof.
   split; [reflexivity|]. eexists. eexists. split; [|split].
   - eapply reach_run; [apply reach_refl|]. instantiate (2 := [LAcquire 0; LBody 0 []]). vm_compute. reflexivity.
   - vm_compute. reflexivity.
+  - vm_compute. reflexivity.
+Qed.
+
+(* drain() and size() under concurrent traffic: a history in which a drain returns two elements and a
+   later size() reports the one element put afterwards *)
+Example C14_ex_drain_size :
+  exists s, reach bq_body (init_sys [] [[BPut 1%Z; BPut 2%Z; BPut 3%Z]; [BDrain; BSize]]) s /\
+            hist s = [(0, BPut 1%Z, RUnit); (0, BPut 2%Z, RUnit); (1, BDrain, RList [1%Z; 2%Z]);
+                      (0, BPut 3%Z, RUnit); (1, BSize, RSize 1)].
+Proof.
+  eexists. split.
+  - eapply reach_run; [apply reach_refl|].
+    instantiate (2 := [LAcquire 0; LBody 0 []; LAcquire 0; LBody 0 []; LAcquire 1; LBody 1 [];
+                       LAcquire 0; LBody 0 []; LAcquire 1; LBody 1 []]).
+    vm_compute. reflexivity.
+  - vm_compute. reflexivity.
+Qed.
+
+Example C14_ex_bbq_observers :
+  exists s, reach (bbq_body 1) (init_sys [] [[QPut 7%Z]; [QEmpty; QFull; QCapacity; QSize]]) s /\
+            hist s = [(1, QEmpty, RBool true); (0, QPut 7%Z, RUnit); (1, QFull, RBool true);
+                      (1, QCapacity, RSize 1); (1, QSize, RSize 1)].
+Proof.
+  eexists. split.
+  - eapply reach_run; [apply reach_refl|].
+    instantiate (2 := [LAcquire 1; LBody 1 []; LAcquire 0; LBody 0 []; LAcquire 1; LBody 1 [];
+                       LAcquire 1; LBody 1 []; LAcquire 1; LBody 1 []]).
+    vm_compute. reflexivity.
   - vm_compute. reflexivity.
 Qed.
